@@ -742,14 +742,19 @@ theorem dictCanon_norm (x : Ctx) (cls pairs tr) : dictCanon x.norm cls pairs tr 
 /-- what the printers guarantee for one value -/
 def ValOk (ctx : Ctx) (v : PyVal) (c tr : Option PS) : Prop :=
   TInv StrOk (toDocW ctx v c tr) ∧ toksOf (toDocW ctx v c tr) = canonW ctx.norm v tr ∧
-    (commented? (toDocW ctx v c tr)).isSome = (nonEmpty? (commentOf v c)).isSome
+    (commented? (toDocW ctx v c tr)).isSome = (nonEmpty? (commentOf v c)).isSome ∧
+    (commented? (toDocW ctx v c tr)).map (·.1) = nonEmpty? (commentOf v c)
 
 theorem valOk_of (ctx : Ctx) (v : PyVal) (c tr : Option PS) (inner : Doc) (hd : toDocW ctx v c tr = wrapC c inner)
     (hco : commentOf v c = c) (hi : TInv StrOk inner) (ht : toksOf inner = canonW ctx.norm v tr)
     (hn : commented? inner = none) : ValOk ctx v c tr := by
   unfold ValOk
   rw [hd, tinv_wrapC, toksOf_wrapC, isSome_wrapC c inner hn, hco]
-  exact ⟨hi, ht, rfl⟩
+  refine ⟨hi, ht, rfl, ?_⟩
+  unfold wrapC
+  split
+  · rename_i t ht'; simp [commented?, ht']
+  · rename_i ht'; simp [hn, ht']
 
 theorem wf_asciiPS_float (kind : Nat) : wfStr false (asciiPS (floatName kind)) := by
   unfold floatName wfStr
@@ -944,7 +949,7 @@ theorem dictDocs_ok : (kvs : List (PyVal × PyVal)) → (ctx : Ctx) → wfPairs 
   | (k, v) :: r, ctx, hw => by
       simp only [wfPairs] at hw
       obtain ⟨ka, kb, _⟩ := toDocW_ok k ctx.nested none none hw.1
-      obtain ⟨va, vb, vc⟩ := toDocW_ok v (ctx.nested.withStrategy 2) none none hw.2.1
+      obtain ⟨va, vb, vc, _⟩ := toDocW_ok v (ctx.nested.withStrategy 2) none none hw.2.1
       obtain ⟨ra, rb, _⟩ := toDocW_ok v (ctx.nested.withStrategy 0) none none hw.2.1
       obtain ⟨c, d⟩ := dictDocs_ok r ctx hw.2.2
       simp only [dictDocs, List.map_cons, canonPairs, pdToks]
